@@ -545,8 +545,10 @@ DEEP = [("json_arrays", ".json", 100000), ("json_objects", ".json", 50000), ("ya
 def _run_deep(case, ctx):
     """Run alone in a fresh interpreter through the command line: a parser that recurses on the C stack kills the process."""
     shape, suffix, n = case["shape"], case["suffix"], case["n"]
-    raw = {"json_arrays": b"[" * n, "json_objects": b'{"a":' * n, "yaml_flow_arrays": b"[" * n, "yaml_flow_maps": b"{a: " * n,
-           "yaml_block": b"".join(b" " * i + b"a:\n" for i in range(n)), "yaml_dashes": b"- " * n}[shape]
+    # built lazily: the block form grows with the square of n
+    raw = {"json_arrays": lambda: b"[" * n, "json_objects": lambda: b'{"a":' * n, "yaml_flow_arrays": lambda: b"[" * n,
+           "yaml_flow_maps": lambda: b"{a: " * n, "yaml_block": lambda: b"".join(b" " * i + b"a:\n" for i in range(n)),
+           "yaml_dashes": lambda: b"- " * n}[shape]()
     d = env.fresh_dir("deep")
     try:
         src = os.path.join(d, "doc" + suffix)
@@ -774,11 +776,27 @@ def run(case, ctx):
         env.rm(os.path.dirname(src))
 
 
+def _describe(case) -> str:
+    """Short, stable description of a case for timeout reports."""
+    k = case.get("kind")
+    if k in ("deep", "cli_shape", "problem", "atheris"):
+        return json.dumps({a: b for a, b in case.items() if a not in ("doc",)}, sort_keys=True)[:160]
+    if k == "stress":
+        return f"stress slot={case.get('slot')} string={case.get('string')}"
+    if k == "matrix":
+        return "matrix " + json.dumps([case.get("schema"), case.get("keyword"), case.get("pos")])[:120]
+    if k == "bytes":
+        return f"bytes suffix={case.get('suffix')} len={len(case.get('data', ''))} head={case.get('data', '')[:40]!r}"
+    return f"{k} size={len(json.dumps(case.get('doc'), default=str)) if case.get('doc') is not None else 0} " + ("collision" if case.get("collision") else "") + ("cyclic" if case.get("cyclic") else "")
+
+
 def on_timeout(case, ctx):
     """A first-stage timeout is only a suspect; confirm alone in a fresh interpreter with a longer limit."""
     ctx.label("timeout-suspect")
+    what = _describe(case)
+    ctx.label("timeout-suspect:" + what)
     if ctx.replay and os.environ.get("VERIF_C06_CONFIRMING"):
-        ctx.violation("terminates", {"stage": "confirm"}, "did not terminate within the limit")
+        ctx.violation("terminates", {"stage": "confirm"}, "did not terminate within the limit: " + what)
         return
     d = env.fresh_dir("hang")
     p = os.path.join(d, "case.json")
@@ -788,9 +806,9 @@ def on_timeout(case, ctx):
         r = subprocess.run([sys.executable, "-m", "engine.main", "C06", "--replay", p], cwd=env.VERIF, timeout=200,
                            env={**os.environ, "VERIF_C06_CONFIRMING": "1", "VERIF_C06_TIMEOUT": "100"}, capture_output=True)
         if r.returncode == 1 and b"clause=terminates" in r.stdout:
-            ctx.violation("terminates", {"stage": "confirmed"}, "no result after 45 s in-process and 100 s alone in a fresh interpreter")
+            ctx.violation("terminates", {"stage": "confirmed"}, "no result after 45 s in-process and 100 s alone in a fresh interpreter: " + what)
         else:
             ctx.label("timeout-unconfirmed")
     except subprocess.TimeoutExpired:
-        ctx.violation("terminates", {"stage": "confirmed"}, "no result after 45 s in-process and 200 s alone")
+        ctx.violation("terminates", {"stage": "confirmed"}, "no result after 45 s in-process and 200 s alone: " + what)
     env.rm(d)
